@@ -349,6 +349,9 @@ func (c *RawClient) Do(op *Op) {
 		c.sendWire(b, &Intent{Client: c.Spec.ID, OpID: op.ID, Kind: op.Kind, Cred: mode})
 	case "send":
 		p := MakePayload(c.W.P.Seed, c.Spec.ID, op)
+		if len(p) > 65400 {
+			p = p[:65400] // the STUN length field is 16 bits
+		}
 		a := c.peerAddr(op.A.Peer)
 		setters := []stun.Setter{stun.NewTransactionIDSetter(c.newTID(op, 0)), stun.NewType(stun.MethodSend, stun.ClassIndication), aPeer(a.IP, a.Port), aData(p)}
 		if hasFlag(op, "dontfrag") {
